@@ -791,6 +791,24 @@ impl PrimeFieldBits for Fr {
     }
 }
 
+#[cfg(feature = "verif-hooks")]
+impl Fr {
+    /// verif hook: the raw Montgomery limbs of this element.
+    pub fn verif_limbs(&self) -> [u64; 4] {
+        self.0
+    }
+
+    /// verif hook: an element from raw (possibly non-canonical) Montgomery limbs.
+    pub fn verif_from_limbs(limbs: [u64; 4]) -> Fr {
+        Fr(limbs)
+    }
+
+    /// verif hook: the private `montgomery_reduce` on eight arbitrary limbs.
+    pub fn verif_montgomery_reduce(r: [u64; 8]) -> Fr {
+        Fr::montgomery_reduce(r[0], r[1], r[2], r[3], r[4], r[5], r[6], r[7])
+    }
+}
+
 #[cfg(test)]
 pub(crate) mod tests {
 
